@@ -107,10 +107,11 @@ const (
 	c12AuthCookie
 	c12AuthOneTime
 	c12GetSession
+	c12LoginRehash
 )
 
 var c12KindName = []string{"CreateUser", "SetPassword", "SetDisabled", "InvalidateSessions", "DeleteUser", "CreateSession",
-	"DeleteSession", "Advance", "AuthPassword", "AuthCookie", "AuthOneTime", "GetSession"}
+	"DeleteSession", "Advance", "AuthPassword", "AuthCookie", "AuthOneTime", "GetSession", "LoginRehash"}
 
 type c12Op struct {
 	kind int
@@ -118,6 +119,9 @@ type c12Op struct {
 	slot int
 	n    uint64 // ttl or dt, seconds (multiples of 10)
 	flag bool   // disabled value / one-time
+	c    uint64 // bcrypt cost of the node executing CreateUser / SetPassword (0 = 4)
+	// LoginRehash: operations scheduled just before the k-th CAS Save attempt of the re-hash
+	inter [][]c12Op
 }
 
 type c12SpecUser struct {
@@ -136,15 +140,21 @@ type c12SpecSess struct {
 	onetime    bool
 }
 type c12Hash struct {
-	bytes     []byte
-	salt, pw0 uint64
+	bytes           []byte
+	salt, pw0, cost uint64
 }
 
 type c12World struct {
-	t                  *testing.T
-	rec                *vRecorder
-	ctx                context.Context
-	auth               *Authenticator
+	t     *testing.T
+	rec   *vRecorder
+	ctx   context.Context
+	auth  *Authenticator // BcryptCost 4, bcryptCostChanged false: never re-hashes
+	auth5 *Authenticator // BcryptCost 5 (used for CreateUser / SetPassword at cost 5)
+	// observeOnly: a history outside the hypotheses of the theorems (two bcrypt costs in use at once): the
+	// correspondence is still checked, monitor verdicts are only counted
+	observeOnly        bool
+	observed           int
+	loginNo            uint64
 	prefix             string
 	capN               int
 	sids               []string // sids[n] = real id of session number n; sids[0] = an id that was never issued
@@ -158,6 +168,7 @@ type c12World struct {
 	outs               []string
 	descs              []string
 	pending            string
+	retried            bool // some re-hash needed more than one CAS Save attempt
 	accepted, rejected int
 }
 
@@ -166,7 +177,7 @@ var c12CaseNo int
 func c12NewWorld(t *testing.T, rec *vRecorder, a *Authenticator, capN int) *c12World {
 	c12CaseNo++
 	cachedHashes = NewRandReplKeyCache(capN)
-	w := &c12World{t: t, rec: rec, ctx: base.TestCtx(t), auth: a, prefix: fmt.Sprintf("c%dx", c12CaseNo), capN: capN,
+	w := &c12World{t: t, rec: rec, ctx: base.TestCtx(t), auth: a, auth5: c12Auth5(a), prefix: fmt.Sprintf("c%dx", c12CaseNo), capN: capN,
 		su: map[uint64]*c12SpecUser{}, ss: map[uint64]*c12SpecSess{}}
 	w.sids = []string{fmt.Sprintf("neverissued%d", c12CaseNo)}
 	return w
@@ -200,6 +211,10 @@ func c12Fail(rec *vRecorder, monitor, sig string, input any, detail string) {
 	}
 }
 func (w *c12World) fail(monitor, sig, detail string) {
+	if w.observeOnly {
+		w.observed++
+		return
+	}
 	h := w.history()
 	if w.pending != "" {
 		h = append(h, w.pending+" => <the failing call>")
@@ -218,7 +233,7 @@ func (w *c12World) specUser(u uint64) *c12SpecUser {
 }
 
 // record the hash the code generated for (salt, p)
-func (w *c12World) noteHash(u, p uint64) {
+func (w *c12World) noteHash(u, p, c uint64) {
 	if p == 0 {
 		return
 	}
@@ -228,15 +243,22 @@ func (w *c12World) noteHash(u, p uint64) {
 	}
 	hb := usr.(*userImpl).PasswordHash_
 	if hb != nil {
-		w.hashes = append(w.hashes, c12Hash{bytes: append([]byte{}, hb...), salt: w.salt, pw0: p})
+		w.hashes = append(w.hashes, c12Hash{bytes: append([]byte{}, hb...), salt: w.salt, pw0: p, cost: c})
 	}
 }
 
-func (w *c12World) doCreateUser(u, p uint64) {
+func (w *c12World) authFor(c uint64) *Authenticator {
+	if c == 5 {
+		return w.auth5
+	}
+	return w.auth
+}
+
+func (w *c12World) doCreateUser(u, p, c uint64) {
 	w.salt++
-	op := fmt.Sprintf("CreateUser %d %d %d", u, p, w.salt)
-	desc := fmt.Sprintf("CreateUser(u%d,pw%d)", u, p)
-	usr, err := w.auth.NewUser(w.name(u), c12Pw(p), nil)
+	op := fmt.Sprintf("CreateUser %d %d %d %d", u, p, w.salt, c)
+	desc := fmt.Sprintf("CreateUser(u%d,pw%d,cost%d)", u, p, c)
+	usr, err := w.authFor(c).NewUser(w.name(u), c12Pw(p), nil)
 	if err != nil {
 		if errors.Is(err, bcrypt.ErrPasswordTooLong) {
 			w.rec.Err("pw-too-long")
@@ -247,7 +269,7 @@ func (w *c12World) doCreateUser(u, p uint64) {
 		w.emit(op, "ODone", desc)
 		return
 	}
-	if err = w.auth.Save(usr); err != nil {
+	if err = w.authFor(c).Save(usr); err != nil {
 		if base.IsCasMismatch(err) {
 			w.rec.Err("user-exists")
 			w.emit(op, "OErr EExists", desc)
@@ -261,13 +283,14 @@ func (w *c12World) doCreateUser(u, p uint64) {
 	su.exists, su.disabled, su.pw = true, false, p
 	su.inc++
 	su.epoch++
-	w.noteHash(u, p)
+	w.noteHash(u, p, c)
 	w.emit(op, "ODone", desc)
 }
 
 // load runs GetUser for the operations that start with it; nil => the op is reported as ENoUser
-func (w *c12World) load(u uint64, op, desc string) User {
-	usr, err := w.auth.GetUser(w.name(u))
+func (w *c12World) load(u uint64, op, desc string) User { return w.loadWith(w.auth, u, op, desc) }
+func (w *c12World) loadWith(au *Authenticator, u uint64, op, desc string) User {
+	usr, err := au.GetUser(w.name(u))
 	if err != nil {
 		w.unexpected("GetUser", err)
 	}
@@ -287,11 +310,11 @@ func (w *c12World) save(usr User, op, desc string) bool {
 	return true
 }
 
-func (w *c12World) doSetPassword(u, p uint64) {
+func (w *c12World) doSetPassword(u, p, c uint64) {
 	w.salt++
-	op := fmt.Sprintf("SetPassword %d %d %d", u, p, w.salt)
-	desc := fmt.Sprintf("SetPassword(u%d,pw%d)", u, p)
-	usr := w.load(u, op, desc)
+	op := fmt.Sprintf("SetPassword %d %d %d %d", u, p, w.salt, c)
+	desc := fmt.Sprintf("SetPassword(u%d,pw%d,cost%d)", u, p, c)
+	usr := w.loadWith(w.authFor(c), u, op, desc)
 	if usr == nil {
 		return
 	}
@@ -311,7 +334,7 @@ func (w *c12World) doSetPassword(u, p uint64) {
 	su := w.specUser(u)
 	su.pw = p
 	su.epoch++
-	w.noteHash(u, p)
+	w.noteHash(u, p, c)
 	w.emit(op, "ODone", desc)
 }
 
@@ -467,19 +490,14 @@ func (w *c12World) checkCache() {
 	}
 }
 
-func (w *c12World) doAuthPassword(u, p uint64) {
-	desc := fmt.Sprintf("AuthenticateUser(u%d,pw%d)", u, p)
-	var before map[string]bool
+// evBegin / end: which resident pair did the random replacement of the password cache evict during a login
+func (w *c12World) evBegin() func() string {
 	full := cachedHashes.Len() >= w.capN
-	if full {
-		before = w.cacheVector()
+	if !full {
+		return func() string { return "None" }
 	}
-	usr, err := w.auth.AuthenticateUser(w.name(u), c12Pw(p))
-	if err != nil {
-		w.unexpected("AuthenticateUser", err)
-	}
-	ev := "None"
-	if full {
+	before := w.cacheVector()
+	return func() string {
 		after := w.cacheVector()
 		var gone []string
 		for k := range before {
@@ -488,45 +506,173 @@ func (w *c12World) doAuthPassword(u, p uint64) {
 			}
 		}
 		sort.Strings(gone)
-		if len(gone) > 0 {
-			var hi int
-			var dp uint64
-			_, _ = fmt.Sscanf(gone[0], "%d|%d", &hi, &dp)
-			ev = fmt.Sprintf("(Some (%d,%d,%d))", dp, w.hashes[hi].salt, w.hashes[hi].pw0)
+		if len(gone) == 0 {
+			return "None"
 		}
+		var hi int
+		var dp uint64
+		_, _ = fmt.Sscanf(gone[0], "%d|%d", &hi, &dp)
+		return fmt.Sprintf("(Some (%d,%d,%d,%d))", dp, w.hashes[hi].cost, w.hashes[hi].salt, w.hashes[hi].pw0)
 	}
-	who := "None"
-	if usr != nil {
-		w.accepted++
-		w.rec.Err("password-accepted")
-		ru, ok := w.unname(usr.Name())
-		if !ok || ru != u {
-			w.fail("password_auth_sound", "password-auth-wrong-user", "AuthenticateUser returned user "+usr.Name())
-			ru = 999
-		}
-		who = fmt.Sprintf("(Some %d)", ru)
-		su := w.specUser(u)
-		switch {
-		case !su.exists:
-			w.fail("password_auth_sound", "deleted-user-password", desc+" authenticated a deleted user")
-		case su.disabled:
-			w.fail("password_auth_sound", "disabled-user-password", desc+" authenticated a disabled user")
-		default:
-			switch v := c12WrongPasswordVerdict([]byte(c12Pw(su.pw)), []byte(c12Pw(p))); v {
-			case "":
-			case "observed":
-				// bcrypt keys on 72 bytes of the cyclic repetition of password ++ NUL: recorded, not judged
-				w.rec.Err("bcrypt-equivalent-nonplain-password-accepted")
-			default:
-				w.fail("password_auth_sound", "wrong-password-authenticates", fmt.Sprintf("%s accepted although the current password is pw%d: %s", desc, su.pw, v))
-			}
-		}
-	} else {
+}
+
+// judgePassword: a password login that returned usr, judged against the specification state su at the moment the
+// login read the user
+func (w *c12World) judgePassword(desc string, u, p uint64, usr User, su c12SpecUser) string {
+	if usr == nil {
 		w.rejected++
 		w.rec.Err("password-rejected")
+		return "None"
 	}
+	w.accepted++
+	w.rec.Err("password-accepted")
+	ru, ok := w.unname(usr.Name())
+	if !ok || ru != u {
+		w.fail("password_auth_sound", "password-auth-wrong-user", "AuthenticateUser returned user "+usr.Name())
+		ru = 999
+	}
+	switch {
+	case !su.exists:
+		w.fail("password_auth_sound", "deleted-user-password", desc+" authenticated a deleted user")
+	case su.disabled:
+		w.fail("password_auth_sound", "disabled-user-password", desc+" authenticated a disabled user")
+	default:
+		switch v := c12WrongPasswordVerdict([]byte(c12Pw(su.pw)), []byte(c12Pw(p))); v {
+		case "":
+		case "observed":
+			// bcrypt keys on 72 bytes of the cyclic repetition of password ++ NUL: recorded, not judged
+			w.rec.Err("bcrypt-equivalent-nonplain-password-accepted")
+		default:
+			w.fail("password_auth_sound", "wrong-password-authenticates", fmt.Sprintf("%s accepted although the current password is pw%d: %s", desc, su.pw, v))
+		}
+	}
+	return fmt.Sprintf("(Some %d)", ru)
+}
+
+func (w *c12World) doAuthPassword(u, p uint64) {
+	desc := fmt.Sprintf("AuthenticateUser(u%d,pw%d)", u, p)
+	endEv := w.evBegin()
+	usr, err := w.auth.AuthenticateUser(w.name(u), c12Pw(p))
+	if err != nil {
+		w.unexpected("AuthenticateUser", err)
+	}
+	ev := endEv()
+	who := w.judgePassword(desc, u, p, usr, *w.specUser(u))
 	w.checkCache()
 	w.emit(fmt.Sprintf("AuthPassword %d %d %s", u, p, ev), fmt.Sprintf("OPass %s %d", who, cachedHashes.Len()), desc)
+}
+
+// a datastore that calls back around every CAS write of one document: the Save attempts of casUpdatePrincipal
+type c12CasHookStore struct {
+	base.DataStore
+	match  string
+	before func()
+	after  func(error)
+}
+
+func (s *c12CasHookStore) WriteCas(ctx context.Context, k string, exp uint32, cas uint64, v any, opt sgbucket.WriteOptions) (uint64, error) {
+	if k != s.match {
+		return s.DataStore.WriteCas(ctx, k, exp, cas, v, opt)
+	}
+	if s.before != nil {
+		s.before()
+	}
+	c, err := s.DataStore.WriteCas(ctx, k, exp, cas, v, opt)
+	if s.after != nil {
+		s.after(err)
+	}
+	return c, err
+}
+
+// an Authenticator whose bcrypt cost was changed to 5 (SetBcryptCost accepts only >= bcrypt.DefaultCost, so the two
+// fields are set directly): a login with a correct password re-hashes a stored hash of another cost
+func c12Auth5(a *Authenticator) *Authenticator { return c12Auth5On(a, a.datastore) }
+func c12Auth5On(a *Authenticator, ds base.DataStore) *Authenticator {
+	opts := a.AuthenticatorOptions
+	opts.BcryptCost = 5
+	a5 := NewAuthenticator(ds, nil, opts)
+	a5.bcryptCostChanged = true
+	return a5
+}
+
+// doLoginRehash: AuthenticateUser on the cost-5 Authenticator, split at the CAS Save attempts of rehashPassword:
+// inter[k] runs just before the k-th attempt (so that attempt loses the CAS race if inter[k] wrote the user).
+// Emits LoginRehash, the interleaved operations, and one RehashSave per attempt (+ one for the final reload).
+func (w *c12World) doLoginRehash(u, p uint64, inter [][]c12Op) {
+	w.loginNo++
+	a := w.loginNo
+	desc := fmt.Sprintf("AuthenticateUser@cost5#%d(u%d,pw%d)", a, u, p)
+	idx := len(w.ops)
+	w.emit("", "", desc) // filled in below: the operation starts here, its result is known when it returns
+	endEv := w.evBegin()
+	ev, lenAfter := "", -1
+	settle := func() {
+		if lenAfter < 0 {
+			ev, lenAfter = endEv(), cachedHashes.Len()
+		}
+	}
+	suAtRead := *w.specUser(u)
+	attempt, lastMismatch := 0, false
+	hs := &c12CasHookStore{DataStore: w.auth.datastore, match: w.auth.DocIDForUser(w.name(u))}
+	hs.before = func() {
+		settle()
+		k := attempt
+		attempt++
+		if k < len(inter) {
+			for _, io := range inter[k] {
+				w.apply(io)
+			}
+		}
+	}
+	hs.after = func(err error) {
+		w.salt++
+		wrote := err == nil
+		gone := err != nil && base.IsDocNotFoundError(err) // the document was deleted meanwhile: casUpdatePrincipal gives up
+		if err != nil && !gone && !base.IsCasMismatch(err) {
+			w.unexpected("Save(rehash)", err)
+		}
+		lastMismatch = !wrote && !gone
+		w.emit(fmt.Sprintf("RehashSave %d %d", a, w.salt), "ORehash "+cqBool(wrote), fmt.Sprintf("  rehash#%d: CAS Save attempt %d", a, attempt))
+		if !wrote {
+			w.rec.Err("rehash-cas-mismatch")
+			return
+		}
+		w.rec.Err("rehash-written")
+		su := w.specUser(u)
+		su.epoch++ // SetPassword rotates the session UUID
+		w.noteHash(u, p, 5)
+		// rehash_preserves_credentials on the implementation: the document just written must still verify the
+		// user's CURRENT password (the specification's), not a superseded one
+		now, _ := w.auth.GetUser(w.name(u))
+		ok := false
+		if now != nil {
+			hb := now.(*userImpl).PasswordHash_
+			if su.pw == 0 {
+				ok = hb == nil
+			} else {
+				ok = hb != nil && bcrypt.CompareHashAndPassword(hb, []byte(c12Pw(su.pw))) == nil
+			}
+		}
+		if !su.exists || !ok {
+			w.fail("rehash_preserves_credentials", "stale-password-reinstated-by-rehash",
+				fmt.Sprintf("the re-hash of login #%d (password pw%d presented) overwrote the credential of u%d: the current password pw%d no longer verifies against the stored hash", a, p, u, su.pw))
+		}
+	}
+	usr, err := c12Auth5On(w.auth, hs).AuthenticateUser(w.name(u), c12Pw(p))
+	if err != nil {
+		w.unexpected("AuthenticateUser", err)
+	}
+	settle()
+	if lastMismatch { // the last attempt lost the race: the reload found no user, or the callback cancelled
+		w.salt++
+		w.emit(fmt.Sprintf("RehashSave %d %d", a, w.salt), "ORehash false", fmt.Sprintf("  rehash#%d: reload, nothing to do", a))
+	}
+	w.retried = w.retried || attempt > 1
+	who := w.judgePassword(desc, u, p, usr, suAtRead)
+	w.checkCache()
+	w.ops[idx] = fmt.Sprintf("LoginRehash %d %d %d %s 5", a, u, p, ev)
+	w.outs[idx] = fmt.Sprintf("OPass %s %d", who, lenAfter)
+	w.descs[idx] = desc + " => " + w.outs[idx]
 }
 
 // every successful session presentation is judged against the specification ghost state
@@ -639,11 +785,20 @@ func (w *c12World) doGetSession(n uint64) {
 	w.emit(fmt.Sprintf("GetSession %d", n), out, desc)
 }
 
+func c12Cost(c uint64) uint64 {
+	if c == 5 {
+		return 5
+	}
+	return 4
+}
+
 func (w *c12World) apply(o c12Op) {
 	w.rec.Size(c12KindName[o.kind])
 	switch o.kind {
 	case c12AuthPassword:
 		w.pending = fmt.Sprintf("AuthenticateUser(u%d,pw%d)", o.u, o.p)
+	case c12LoginRehash:
+		w.pending = fmt.Sprintf("AuthenticateUser@cost5(u%d,pw%d)", o.u, o.p)
 	case c12AuthCookie:
 		w.pending = fmt.Sprintf("AuthenticateCookie(s%d)", w.slots[o.slot])
 	case c12AuthOneTime:
@@ -656,9 +811,11 @@ func (w *c12World) apply(o c12Op) {
 	defer func() { w.pending = "" }()
 	switch o.kind {
 	case c12CreateUser:
-		w.doCreateUser(o.u, o.p)
+		w.doCreateUser(o.u, o.p, c12Cost(o.c))
 	case c12SetPassword:
-		w.doSetPassword(o.u, o.p)
+		w.doSetPassword(o.u, o.p, c12Cost(o.c))
+	case c12LoginRehash:
+		w.doLoginRehash(o.u, o.p, o.inter)
 	case c12SetDisabled:
 		w.doSetDisabled(o.u, o.flag)
 	case c12Invalidate:
@@ -683,7 +840,12 @@ func (w *c12World) apply(o c12Op) {
 }
 
 func c12Run(t *testing.T, rec *vRecorder, a *Authenticator, stream, kind string, capN int, ops []c12Op) *c12World {
+	return c12RunObs(t, rec, a, stream, kind, capN, ops, false)
+}
+
+func c12RunObs(t *testing.T, rec *vRecorder, a *Authenticator, stream, kind string, capN int, ops []c12Op, observeOnly bool) *c12World {
 	w := c12NewWorld(t, rec, a, capN)
+	w.observeOnly = observeOnly
 	for _, o := range ops {
 		w.apply(o)
 	}
@@ -708,6 +870,12 @@ func aP(u, p uint64) c12Op { return c12Op{kind: c12AuthPassword, u: u, p: p} }
 func aC(slot int) c12Op    { return c12Op{kind: c12AuthCookie, slot: slot} }
 func aO(slot int) c12Op    { return c12Op{kind: c12AuthOneTime, slot: slot} }
 func gS(slot int) c12Op    { return c12Op{kind: c12GetSession, slot: slot} }
+
+// lR: login on the node whose bcrypt cost was changed to 5; inter[k] is scheduled before the k-th Save attempt
+func lR(u, p uint64, inter ...[]c12Op) c12Op {
+	return c12Op{kind: c12LoginRehash, u: u, p: p, inter: inter}
+}
+func at5(o c12Op) c12Op { o.c = 5; return o }
 
 // a datastore whose next Get of a session document is followed by a callback: forces the schedule
 // "A reads the session; B runs completely; A continues" on the real code
@@ -792,7 +960,17 @@ func TestVerifC12(t *testing.T) {
 		"two-users-same-password": {cU(1, 1), cU(2, 5), aP(1, 1), aP(2, 1), aP(2, 5), aP(1, 5), sP(2, 1), aP(2, 1), aP(2, 5), sP(1, 5), aP(1, 1), aP(1, 5)},
 		"cross-user-session":      {cU(1, 1), cU(2, 1), cS(1, 0, 1000, false), cS(2, 1, 1000, false), dU(1), aC(0), aC(1), sP(2, 1), aC(1)},
 		"unknown":                 {aP(1, 1), aC(0), aO(0), gS(0), dS(0), sP(1, 1), sD(1, true), inv(1), dU(1), cS(1, 0, 1000, false), cU(1, 1), cU(1, 5), cS(1, 0, 0, false), aP(1, 5), aP(1, 1)},
-		"refresh-then-stale":      {cU(1, 1), cS(1, 0, 1000, false), adv(450), sP(1, 5), aC(0), adv(600), aC(0)},
+		// re-hashing at login after the bcrypt cost changed 4 -> 5 (auth.go rehashPassword), CAS retries forced
+		"rehash-simple":             {cU(1, 1), cS(1, 0, 1000, false), aC(0), lR(1, 1), aC(0), aP(1, 1), aP(1, 5), lR(1, 1), lR(1, 5), aP(1, 1)},
+		"rehash-vs-password-change": {cU(1, 1), cS(1, 0, 1000, false), lR(1, 1, []c12Op{at5(sP(1, 5))}), aP(1, 1), aP(1, 5), aC(0), lR(1, 5), lR(1, 1)},
+		"rehash-vs-disable":         {cU(1, 1), lR(1, 1, []c12Op{sD(1, true)}), aP(1, 1), sD(1, false), aP(1, 1), aP(1, 5)},
+		"rehash-vs-delete":          {cU(1, 1), lR(1, 1, []c12Op{dU(1)}), aP(1, 1), at5(cU(1, 5)), aP(1, 1), aP(1, 5)},
+		"rehash-vs-recreate":        {cU(1, 1), lR(1, 1, []c12Op{dU(1), at5(cU(1, 5))}), aP(1, 1), aP(1, 5), lR(1, 5)},
+		"rehash-two-retries":        {cU(1, 1), cS(1, 0, 1000, false), lR(1, 1, []c12Op{sD(1, true)}, []c12Op{sD(1, false), at5(sP(1, 5))}), aP(1, 1), aP(1, 5), aC(0)},
+		"rehash-retry-then-write":   {cU(1, 1), lR(1, 1, []c12Op{inv(1)}, []c12Op{cS(1, 0, 1000, false)}), aC(0), aP(1, 1), aP(1, 5)},
+		"rehash-nested-logins":      {cU(1, 1), lR(1, 1, []c12Op{lR(1, 1)}), aP(1, 1), lR(1, 1), aP(1, 5)},
+		"rehash-nonplain":           {cU(1, 6), lR(1, 7), aP(1, 6), aP(1, 7), aP(1, 1), cU(2, 3), lR(2, 1003), aP(2, 3), lR(2, 3), aP(2, 3), cU(3, 0), lR(3, 0), aP(3, 0)},
+		"refresh-then-stale":        {cU(1, 1), cS(1, 0, 1000, false), adv(450), sP(1, 5), aC(0), adv(600), aC(0)},
 	}
 	var names []string
 	for k := range corpus {
@@ -803,9 +981,32 @@ func TestVerifC12(t *testing.T) {
 		c12Run(t, rec, a, "corpus", "history:"+k, bigCap, corpus[k])
 	}
 	// the same with a one-slot cache (every insertion evicts)
-	for _, k := range []string{"password-change", "two-users-same-password", "odd-passwords", "empty-password", "bcrypt-nul-cycle"} {
+	for _, k := range []string{"password-change", "two-users-same-password", "odd-passwords", "empty-password", "bcrypt-nul-cycle", "rehash-simple", "rehash-vs-password-change", "rehash-nonplain"} {
 		c12Run(t, rec, a, "corpus", "history-cache1:"+k, 1, corpus[k])
 	}
+
+	// Two bcrypt costs in use AT ONCE (outside the hypothesis of C12_rehash_preserves_credentials; witness in
+	// C12_Refuted.v): the password change that wins the CAS race is hashed with cost 4, the re-hashing login wants
+	// cost 5, and the callback -- which re-checks only the cost of the reloaded document -- writes the old password
+	// back.  The model reproduces it (the correspondence is checked); the monitors' verdicts are only counted.
+	mixed := c12RunObs(t, rec, a, "corpus", "history:rehash-mixed-costs-observed", bigCap,
+		[]c12Op{cU(1, 1), lR(1, 1, []c12Op{sP(1, 5)}), aP(1, 1), aP(1, 5)}, true)
+	rec.Extra("rehash_mixed_cost_reinstates_old_password_observed", mixed.observed)
+
+	// ---------- (a2) re-hash: every pair of interleavings at the first two CAS Save attempts ----------
+	interAlpha := [][]c12Op{nil, {at5(sP(1, 5))}, {at5(sP(1, 1))}, {sD(1, true)}, {inv(1)}, {dU(1)}, {dU(1), at5(cU(1, 5))}, {cS(1, 1, 1000, false)}, {aP(1, 1)}}
+	nRe, nRetried := 0, 0
+	for _, i1 := range interAlpha {
+		for _, i2 := range interAlpha {
+			ops := []c12Op{cU(1, 1), cS(1, 0, 1000, false), lR(1, 1, i1, i2), aP(1, 1), aP(1, 5), aC(0), aC(1), sD(1, false), lR(1, 1), aP(1, 1), aP(1, 5)}
+			w := c12Run(t, rec, a, "rehash-exhaustive", "rehash-interleavings", bigCap, ops)
+			nRe++
+			if w.retried {
+				nRetried++
+			}
+		}
+	}
+	rec.Extra("rehash_exhaustive_scope", fmt.Sprintf("login at cost 5 of a cost-4 user x all pairs of %d interleavings before the 1st and 2nd CAS Save attempt: %d histories, %d with more than one attempt", len(interAlpha), nRe, nRetried))
 
 	// ---------- (b) bounded-exhaustive: every sequence over the alphabet, between a fixed prefix and a probe suffix ----------
 	alphabet := []c12Op{sP(1, 5), sD(1, true), sD(1, false), inv(1), dU(1), cU(1, 1), cS(1, 1, 1000, false), cS(1, 1, 1000, true),
@@ -856,6 +1057,38 @@ func TestVerifC12(t *testing.T) {
 		if !adversarial {
 			ops = append(ops, cU(1, pickPw(false)), cS(1, 0, 1000, rnd.Chance(30)))
 		}
+		// one configured cost at a time: until the first re-hashing login the nodes hash with cost 4 (rarely 5),
+		// from then on every node hashes with cost 5
+		changed := false
+		cost := func(o c12Op) c12Op {
+			if changed || rnd.Chance(15) {
+				return at5(o)
+			}
+			return o
+		}
+		small := func() []c12Op { // what is scheduled between a login's read and one of its Save attempts
+			var l []c12Op
+			for k := rnd.Intn(3); k > 0; k-- {
+				u := 1 + uint64(rnd.Intn(int(nu)))
+				switch rnd.Intn(7) {
+				case 0:
+					l = append(l, at5(sP(u, pickPw(adversarial))))
+				case 1:
+					l = append(l, sD(u, rnd.Chance(50)))
+				case 2:
+					l = append(l, dU(u))
+				case 3:
+					l = append(l, at5(cU(u, pickPw(adversarial))))
+				case 4:
+					l = append(l, inv(u))
+				case 5:
+					l = append(l, aP(u, pickPw(adversarial)))
+				default:
+					l = append(l, cS(u, rnd.Intn(3), 1000, rnd.Chance(30)))
+				}
+			}
+			return l
+		}
 		for len(ops) < n {
 			u := 1 + uint64(rnd.Intn(int(nu)))
 			slot := rnd.Intn(3)
@@ -866,9 +1099,9 @@ func TestVerifC12(t *testing.T) {
 			r := rnd.Intn(100)
 			switch {
 			case r < 10:
-				o = cU(u, pickPw(adversarial))
+				o = cost(cU(u, pickPw(adversarial)))
 			case r < 18:
-				o = sP(u, pickPw(adversarial))
+				o = cost(sP(u, pickPw(adversarial)))
 			case r < 26:
 				o = sD(u, rnd.Chance(60))
 			case r < 30:
@@ -885,8 +1118,18 @@ func TestVerifC12(t *testing.T) {
 				o = dS(slot)
 			case r < 62:
 				o = adv(dts[rnd.Intn(len(dts))])
-			case r < 76:
+			case r < 68:
 				o = aP(u, pickPw(adversarial))
+			case r < 76:
+				changed = true
+				switch rnd.Intn(3) {
+				case 0:
+					o = lR(u, pickPw(adversarial))
+				case 1:
+					o = lR(u, pickPw(adversarial), small())
+				default:
+					o = lR(u, pickPw(adversarial), small(), small())
+				}
 			case r < 90:
 				o = aC(slot)
 			case r < 95:
